@@ -107,6 +107,10 @@ pub fn scenario(run: u64, rng: &mut SmallRng) {
     let mut fwdarp = false;
     let mut has_capture = false;
     let mut next_status = 10u32;
+    // runs WITHOUT a timeout: only when every protocol finishes and none keeps its shutdown handle (scripted applications
+    // and taps only); such a run must return once everything has finished -- Exited if nobody asked
+    let want_untimed = rng.gen_range(0..7) == 0;
+    let mut can_be_untimed = true;
     for m in 0..nm {
         let mut mach = Machine::new();
         let builtin = rng.gen_range(0..5);
@@ -117,6 +121,7 @@ pub fn scenario(run: u64, rng: &mut SmallRng) {
         let my_ip = [10, 0, 0, m as u8 + 1];
         let peer_ip = [10, 0, 0, ((m + 1) % nm.max(1)) as u8 + 1];
         if builtin <= 2 {
+            can_be_untimed = false;
             let table: IpTable<Recipient> = [("0.0.0.0/0", Recipient::new(0, None))].into_iter().collect();
             mach = mach.with(Udp::new()).with(Ipv4::new(table));
             let with_arp = rng.gen_range(0..3) == 0;
@@ -168,6 +173,9 @@ pub fn scenario(run: u64, rng: &mut SmallRng) {
                 None
             };
             let never = rng.gen_range(0..14) == 0;
+            if never || matches!(post, Post::Hang) {
+                can_be_untimed = false;
+            }
             mach = match p {
                 0 => mach.with(Scr::<0> { m, init_us, post_us, post, has_pci, early, never }),
                 1 => mach.with(Scr::<1> { m, init_us, post_us, post, has_pci, early, never }),
@@ -176,7 +184,8 @@ pub fn scenario(run: u64, rng: &mut SmallRng) {
         }
         machines.push(mach.arc());
     }
-    begin_run(run, json!({"nm":nm,"scr":total_scr,"timeout":timeout_us,"fwdarp":fwdarp,"capture":has_capture}));
+    let untimed = want_untimed && can_be_untimed;
+    begin_run(run, json!({"nm":nm,"scr":total_scr,"timeout":timeout_us,"fwdarp":fwdarp,"capture":has_capture,"untimed":untimed}));
     elvis_core::network::verif::set_frame_hook(Some(Arc::new(move |f: &elvis_core::network::verif::FrameInfo| {
         emit(json!({"ev":"wire","len":f.bytes.len()}));
         vec![Duration::ZERO]
@@ -184,7 +193,14 @@ pub fn scenario(run: u64, rng: &mut SmallRng) {
     let status = run_paused(async {
         mark_start();
         // a guard above the bound the property states, so that a run that never returns is recorded, not waited for
-        match tokio::time::timeout(Duration::from_secs(60), elvis_core::run_internet_with_timeout(&machines, Duration::from_micros(timeout_us))).await {
+        let fut = async {
+            if untimed {
+                elvis_core::run_internet(&machines, None).await
+            } else {
+                elvis_core::run_internet_with_timeout(&machines, Duration::from_micros(timeout_us)).await
+            }
+        };
+        match tokio::time::timeout(Duration::from_secs(60), fut).await {
             Ok(s) => {
                 emit(json!({"ev":"returned","status":status_code(&s)}));
                 Some(s)
